@@ -283,6 +283,12 @@ def model_ops(ops, values):
     return "[" + "; ".join(out) + "]"
 
 
+def canon(regs):
+    """rename register indices by order of first appearance"""
+    seen = {}
+    return [seen.setdefault(r, len(seen)) for r in regs]
+
+
 def nl(l):
     return "[" + "; ".join(f"{x}%nat" for x in l) + "]"
 
@@ -353,9 +359,13 @@ def run(ctx):
                     stats.get("rounds>=2_same_block" if any(a.endswith("@1") for a in values) else "mixed", 0) + 1
             ctx.note_case((json.dumps(ops), json.dumps(values), hw), nontrivial=nontriv)
             if hw == "generic" and pre["error"] is None and pre["left"] is not None:
-                views = "[" + "; ".join(f"({nl(v[0])}, {nl(v[1])}, {nl(v[2])})" for v in pre["views"]) + "]"
+                # M-register numbers are an allocation detail that C06 does not observe: registers to
+                # return are compared up to a renaming by order of first appearance (a register
+                # returned twice in one subroutine still shows: [0, 0] instead of [0, 1]); array
+                # addresses (declare / return / erase) stay exact
+                views = "[" + "; ".join(f"({nl(v[0])}, {nl(v[1])}, {nl(canon(v[2]))})" for v in pre["views"]) + "]"
                 rots = "[" + "; ".join("[" + "; ".join(f"({x})%Z" for x in r) + "]" for r in pre["rots"]) + "]"
-                cases.append(f"mkC {model_ops(ops, values)} {views} {nl(pre['left'][0])} {nl(pre['left'][1])} {rots}")
+                cases.append(f"mkC {model_ops(ops, values)} {views} {nl(pre['left'][0])} {nl(canon(pre['left'][1]))} {rots}")
                 meta.append(dict(ops=ops, values=values, views=pre["views"], left=pre["left"]))
         if k < 3:
             ctx.samples.append(dict(ops=ops, values=values))
